@@ -16,8 +16,18 @@ def run(ctx, audit):
 
 
 def extra(ctx):
-    pass
+    import gfi_extras
+    gfi_extras.c01_law(ctx, 30000 if ctx.thorough else 4000)
+    gfi_extras.c01_modes(ctx)
 
 
 def replay(ctx, payload):
+    kind = (payload.get("case") or {}).get("kind")
+    if kind in ("simulate-law", "modes"):
+        extra(ctx)
+        for i in ctx.issues:
+            print("REPRODUCED:", i["what"])
+        if not ctx.issues:
+            print("not reproduced")
+        return 1 if ctx.issues else 0
     return gfi_run.replay_case(ctx, payload, roundtrip=False)
